@@ -13,6 +13,8 @@
                (by entry), leaf adjoints = what is left pending
     resultOldKeyed  the result before that fix: cumulative totals keyed by eager value, relabelled through
                `_eager_to_lazy`
+    lazyLabel, report   the eager→lazy map (last writer wins, as the code does; or first writer) and what
+               `tape.adjoint` reports under each lazy form
     sweepOld   the sweep before fix d732c46: propagate the cumulative total stored under the key
     treeBack   the tree-shaped reverse pass on the unfolding of the DAG: a message sent to a key is pushed
                through the newest entry that produces the key, recursively, down to the leaves
@@ -76,6 +78,41 @@ def resultOldKeyed (tape : List (Entry M)) (bag : List (Nat × M)) (q : Nat) : M
   let all := bag ++ sent add zero tape bag
   let relabel : Nat → Nat := fun k => if tape.any (fun e => e.key == k) then lazyBase + k else k
   pendingAt add zero (all.map (fun p => (relabel p.1, p.2))) q
+
+/-! #### the eager→lazy map (`AdjointTape._eager_to_lazy`)
+
+  `interpret` writes `_eager_to_lazy[result] = lazy form` for every evaluated term — also for the leaves
+  (`x ↦ x`) — and simply overwrites: **last writer wins**.  The reverse sweep records the adjoint popped
+  at an entry under the lazy form of the entry's eager output, and reports what is left pending under the
+  eager keys themselves (for a leaf that is its own lazy form).  Lazy forms are modelled as labels:
+  `2*k` = the leaf with eager key `k` itself, `2*pos+1` = the tape entry at position `pos` (from the
+  oldest). -/
+
+inductive Policy where
+  | lastWriter     -- the code on HEAD
+  | firstWriter    -- keep the first lazy form ever recorded for an eager value
+  deriving DecidableEq
+
+/-- the lazy form recorded for eager key `k` after the whole forward pass; `leaves` = the eager keys of
+    the leaves, which are evaluated (and recorded) before any op that uses them -/
+def lazyLabel (pol : Policy) (leaves : List Nat) (tape : List (Entry M)) (k : Nat) : Nat :=
+  match pol with
+  | .lastWriter =>
+      match tape.findIdx? (fun e => e.key == k) with        -- newest entry with that eager value
+      | some i => 2 * (tape.length - 1 - i) + 1
+      | none => 2 * k
+  | .firstWriter =>
+      if leaves.contains k then 2 * k
+      else match tape.reverse.findIdx? (fun e => e.key == k) with    -- oldest entry with that eager value
+        | some i => 2 * i + 1
+        | none => 2 * k
+
+/-- what `tape.adjoint` reports under lazy label `q`: the adjoints recorded at pop time under the lazy
+    form of the popped entry's output, ⊕ what is left pending under the eager keys -/
+def report (pol : Policy) (leaves : List Nat) (tape : List (Entry M)) (bag : List (Nat × M)) (q : Nat) : M :=
+  pendingAt add zero
+    ((popped add zero tape bag).map (fun p => (lazyLabel pol leaves tape p.1, p.2)) ++
+      (sweep add zero tape bag).map (fun p => (2 * p.1, p.2))) q
 
 /-- The sweep before fix d732c46: nothing is popped; an entry propagates the cumulative total stored
     under its key, and messages are added to the totals. -/
